@@ -1,10 +1,1583 @@
-use crate::sim::Finding;
-use serde_json::Value;
+//! session-sim (C17): one retained Compiler + VM pair driven line by line as the interactive prompt
+//! does, with lines made to fail at parse, compile and run time (naturally and by injection at every
+//! instruction k), compared line by line with `eval` of the single program made of all successful
+//! earlier lines plus the assignments completed by failed ones.
 
-pub fn replay(_sp: &Value, _trace: bool) -> Vec<Finding> {
-    Vec::new()
+use crate::acc::{Acc, Tier, Violation};
+use crate::alloc;
+use crate::gen_program::{Gen, Swarm, Ty, Var};
+use crate::rng::{mix, Fold, Rng};
+use crate::runner::{self, Outcome, Plan};
+use crate::shadow;
+use crate::sim::{self, CollectPlan, Finding, Injected, CTX};
+use nederlang::compiler::Compiler;
+use nederlang::object::{Error, Object};
+use nederlang::parser::parse;
+use nederlang::vm::VM;
+use serde_json::{json, Value};
+use std::panic::{catch_unwind, AssertUnwindSafe};
+
+pub const TAG: u64 = 0xC17;
+pub const PROPERTY: &str = "C17";
+
+#[derive(Clone, Debug, PartialEq)]
+pub enum Fail {
+    None,
+    Parse,
+    Compile,
+    /// statement `idx` raises a run-time error; the statements before it complete
+    Run(usize),
 }
 
-pub fn shrink(sp: &Value, _class: &str, _key: &str) -> Value {
-    sp.clone()
+#[derive(Clone, Debug)]
+pub struct SStmt {
+    pub src: String,
+    /// executes exactly one top-level effect instruction (SetGlobal / IndexSet at frame depth 1)
+    pub effect: bool,
+}
+
+#[derive(Clone, Debug)]
+pub struct SLine {
+    pub label: String,
+    pub stmts: Vec<SStmt>,
+    pub fail: Fail,
+    /// the line's value is defined (it executes a top-level expression statement last)
+    pub has_value: bool,
+    /// a failure may be injected at any instruction: the effect of the first e top-level effect
+    /// instructions is `effect_equiv[..e]` (default: the effect statements themselves)
+    pub injectable: bool,
+    pub effect_equiv: Option<Vec<String>>,
+}
+
+impl SLine {
+    pub fn text(&self) -> String {
+        self.stmts.iter().map(|s| s.src.as_str()).collect::<Vec<_>>().join(" ")
+    }
+    fn equiv(&self) -> Vec<String> {
+        match &self.effect_equiv {
+            Some(v) => v.clone(),
+            None => self.stmts.iter().filter(|s| s.effect).map(|s| s.src.clone()).collect(),
+        }
+    }
+    pub fn to_json(&self) -> Value {
+        json!({
+            "label": self.label,
+            "text": self.text(),
+            "stmts": self.stmts.iter().map(|s| json!([s.src, s.effect])).collect::<Vec<_>>(),
+            "fail": match &self.fail { Fail::None => json!("none"), Fail::Parse => json!("parse"), Fail::Compile => json!("compile"), Fail::Run(i) => json!({"run": i}) },
+            "has_value": self.has_value,
+            "injectable": self.injectable,
+            "effect_equiv": self.effect_equiv,
+        })
+    }
+    pub fn from_json(v: &Value) -> SLine {
+        SLine {
+            label: v["label"].as_str().unwrap_or("?").to_string(),
+            stmts: v["stmts"]
+                .as_array()
+                .map(|a| a.iter().map(|s| SStmt { src: s[0].as_str().unwrap_or("").to_string(), effect: s[1].as_bool().unwrap_or(false) }).collect())
+                .unwrap_or_default(),
+            fail: match &v["fail"] {
+                Value::String(s) if s == "parse" => Fail::Parse,
+                Value::String(s) if s == "compile" => Fail::Compile,
+                Value::Object(o) => Fail::Run(o.get("run").and_then(|x| x.as_u64()).unwrap_or(0) as usize),
+                _ => Fail::None,
+            },
+            has_value: v["has_value"].as_bool().unwrap_or(false),
+            injectable: v["injectable"].as_bool().unwrap_or(false),
+            effect_equiv: v["effect_equiv"].as_array().map(|a| a.iter().map(|s| s.as_str().unwrap_or("").to_string()).collect()),
+        }
+    }
+}
+
+#[derive(Clone, Debug)]
+pub struct SessionSpec {
+    pub lines: Vec<SLine>,
+    /// inject a failure into line `.0` at instruction `.1`
+    pub crash: Option<(usize, u64)>,
+    pub collect_every_step: bool,
+    pub alloc_mode: u8,
+}
+
+impl SessionSpec {
+    pub fn to_json(&self) -> Value {
+        json!({
+            "engine": "session-sim",
+            "kind": "session",
+            "lines": self.lines.iter().map(|l| l.to_json()).collect::<Vec<_>>(),
+            "crash": self.crash.map(|(l, k)| json!({"line": l, "step": k})),
+            "collect_every_step": self.collect_every_step,
+            "alloc_mode": alloc::mode_name(self.alloc_mode),
+        })
+    }
+    pub fn from_json(v: &Value) -> SessionSpec {
+        SessionSpec {
+            lines: v["lines"].as_array().map(|a| a.iter().map(SLine::from_json).collect()).unwrap_or_default(),
+            crash: if v["crash"].is_object() {
+                Some((v["crash"]["line"].as_u64().unwrap_or(0) as usize, v["crash"]["step"].as_u64().unwrap_or(0)))
+            } else {
+                None
+            },
+            collect_every_step: v["collect_every_step"].as_bool().unwrap_or(false),
+            alloc_mode: alloc::mode_from_name(v["alloc_mode"].as_str().unwrap_or("plain")),
+        }
+    }
+}
+
+// ---------------------------------------------------------------------------------------------
+// the session driver (what bin/nederlang.rs run_repl does, without unwrap)
+
+struct Session {
+    compiler: Option<Compiler>,
+    vm: Option<VM>,
+    results: Vec<Object>,
+}
+
+pub struct LineRun {
+    pub outcome: Outcome,
+    pub out: String,
+    pub injected: Injected,
+    pub steps: u64,
+    pub effects: u64,
+    pub findings: Vec<Finding>,
+    pub log: u64,
+    pub frames_at_crash: usize,
+    pub stack_at_crash: usize,
+    pub collections: u64,
+}
+
+const SESSION_ID: u64 = 1;
+const MODEL_ID: u64 = 2;
+
+impl Session {
+    fn new() -> Session {
+        Session {
+            compiler: Some(Compiler::new()),
+            vm: Some(VM::new()),
+            results: Vec::new(),
+        }
+    }
+
+    fn run_line(&mut self, text: &str, plan: &Plan) -> LineRun {
+        runner::begin_run(plan, SESSION_ID, 0, None);
+        sim::marker("LINE+");
+        alloc::set_mode(plan.alloc_mode);
+        let compiler = self.compiler.as_mut().unwrap();
+        let vm = self.vm.as_mut().unwrap();
+        let r: std::thread::Result<Result<Object, Error>> = catch_unwind(AssertUnwindSafe(|| {
+            let ast = parse(text)?;
+            let code = compiler.compile_ast(&ast)?;
+            vm.run(code)
+        }));
+        alloc::set_mode(alloc::PLAIN);
+        sim::marker("LINE-");
+        CTX.with(|c| {
+            let mut ctx = c.borrow_mut();
+            ctx.active = false;
+            ctx.in_gc = false;
+        });
+        let (mut outcome, value) = runner::classify(r);
+        let mut extra = Vec::new();
+        if let Some(v) = value {
+            let mut dead = Vec::new();
+            let text = runner::render_value(v, &mut dead);
+            outcome = Outcome::Ok(text);
+            for d in dead {
+                extra.push(Finding {
+                    class: "result-invalid".into(),
+                    key: d.split('#').next().unwrap_or("?").to_string(),
+                    detail: format!("the value of the line contains {} which is not allocated any more", d),
+                });
+            }
+            if v.is_heap_allocated() {
+                self.results.push(v);
+            }
+        }
+        CTX.with(|c| {
+            let mut ctx = c.borrow_mut();
+            let mut findings = std::mem::take(&mut ctx.findings);
+            findings.extend(extra);
+            let (f, s) = ctx.crash_state.as_ref().map(|c| (c.frames, c.stack)).unwrap_or((0, 0));
+            LineRun {
+                outcome,
+                out: std::mem::take(&mut ctx.out),
+                injected: ctx.injected.clone(),
+                steps: ctx.step,
+                effects: ctx.effects,
+                findings,
+                log: ctx.fold.0,
+                frames_at_crash: f,
+                stack_at_crash: s,
+                collections: ctx.stats.collections,
+            }
+        })
+    }
+
+    /// Ends the session: the pair is dropped, the caller releases every value it was handed.
+    fn finish(mut self) -> Vec<Finding> {
+        CTX.with(|c| {
+            let mut ctx = c.borrow_mut();
+            *ctx = sim::Ctx::new();
+            ctx.eval_id = SESSION_ID;
+        });
+        let vm = self.vm.take();
+        let compiler = self.compiler.take();
+        let _ = catch_unwind(AssertUnwindSafe(move || {
+            drop(vm);
+            drop(compiler);
+        }));
+        sim::gc_drop_done();
+        {
+            let _g = sim::enter_harness();
+            let objs = {
+                let sh = shadow::lock();
+                sim::collect_objects_ordered(&sh, &[self.results.as_slice()])
+            };
+            for (_, o) in objs {
+                o.free();
+            }
+        }
+        let findings = CTX.with(|c| std::mem::take(&mut c.borrow_mut().findings));
+        let mut sh = shadow::lock();
+        sh.reset_owner(SESSION_ID);
+        drop(sh);
+        alloc::flush_parked();
+        findings
+    }
+}
+
+// ---------------------------------------------------------------------------------------------
+// running a session against the growing-program model
+
+pub struct SessionResult {
+    pub findings: Vec<Finding>,
+    pub log: u64,
+    pub lines_run: usize,
+    pub steps: u64,
+    pub model_steps: u64,
+    pub skeleton: String,
+    pub crash_tuple: Option<(usize, usize, u64)>,
+    pub line_steps: Vec<u64>,
+    pub inconsistent: bool,
+    pub transcript: Vec<String>,
+    pub collections: u64,
+    pub injected_fired: bool,
+    pub lines_after_failure: u64,
+    pub heap_values_crossed_lines: bool,
+    pub read_poisoned: bool,
+}
+
+const HEAP_CLASSES: &[&str] = &[
+    "use-after-release",
+    "double-release",
+    "release-unknown",
+    "access-unknown",
+    "reachable-reclaimed",
+    "survivor-changed",
+    "result-invalid",
+    "managed-list-corrupt",
+    "foreign-access",
+];
+
+fn model_eval(p: &[String], line: Option<&str>) -> runner::RunResult {
+    let mut src = p.join("\n");
+    if let Some(l) = line {
+        if !src.is_empty() {
+            src.push('\n');
+        }
+        src.push_str(l);
+    }
+    src.push('\n');
+    let mut plan = Plan::plain();
+    plan.budget = 400_000;
+    runner::run_eval(&src, &plan, MODEL_ID, false)
+}
+
+fn kind_of(o: &Outcome, inj: &Injected) -> String {
+    match inj {
+        Injected::Guard(g) => format!("wild:{}", g),
+        Injected::Budget => "no-progress".into(),
+        _ => o.kind(),
+    }
+}
+
+/// identifier tokens of a source text (string literals removed)
+fn idents(text: &str) -> Vec<String> {
+    let mut clean = String::new();
+    let mut in_str = false;
+    let mut esc = false;
+    for c in text.chars() {
+        if in_str {
+            if esc {
+                esc = false;
+            } else if c == '\\' {
+                esc = true;
+            } else if c == '"' {
+                in_str = false;
+            }
+            clean.push(' ');
+        } else if c == '"' {
+            in_str = true;
+            clean.push(' ');
+        } else {
+            clean.push(c);
+        }
+    }
+    clean
+        .split(|c: char| !(c.is_alphanumeric() || c == '_'))
+        .filter(|t| !t.is_empty() && !t.chars().next().unwrap().is_ascii_digit())
+        .map(|t| t.to_string())
+        .collect()
+}
+
+/// names a source text declares at its top level (`stel x`, `functie f` outside any braces)
+fn declared(text: &str) -> Vec<String> {
+    // blank out everything inside braces, then look at the remaining tokens
+    let mut top = String::new();
+    let mut depth = 0usize;
+    let mut in_str = false;
+    let mut esc = false;
+    for c in text.chars() {
+        if in_str {
+            if esc {
+                esc = false;
+            } else if c == '\\' {
+                esc = true;
+            } else if c == '"' {
+                in_str = false;
+            }
+            top.push(' ');
+            continue;
+        }
+        match c {
+            '"' => {
+                in_str = true;
+                top.push(' ');
+            }
+            '{' => {
+                depth += 1;
+                top.push(' ');
+            }
+            '}' => {
+                depth = depth.saturating_sub(1);
+                top.push(' ');
+            }
+            _ if depth > 0 => top.push(' '),
+            _ => top.push(c),
+        }
+    }
+    let t = idents(&top);
+    t.windows(2).filter(|w| w[0] == "stel" || w[0] == "functie").map(|w| w[1].clone()).collect()
+}
+
+pub fn run_session(spec: &SessionSpec, verbose: bool) -> SessionResult {
+    let mut s = Session::new();
+    let mut p: Vec<String> = Vec::new();
+    let mut out_p = String::new(); // output of eval(P)
+    let mut findings: Vec<Finding> = Vec::new();
+    let mut log = Fold::new();
+    let mut res = SessionResult {
+        findings: Vec::new(),
+        log: 0,
+        lines_run: 0,
+        steps: 0,
+        model_steps: 0,
+        skeleton: String::new(),
+        crash_tuple: None,
+        line_steps: Vec::new(),
+        inconsistent: false,
+        transcript: Vec::new(),
+        collections: 0,
+        injected_fired: false,
+        lines_after_failure: 0,
+        heap_values_crossed_lines: false,
+        read_poisoned: false,
+    };
+    let mut last_fail = "none".to_string();
+    let mut skeleton: Vec<String> = Vec::new();
+    // names declared by the part of a failed line that did not complete: the compiler knows them,
+    // the machine never assigned them
+    let mut poisoned: Vec<String> = Vec::new();
+    for (li, line) in spec.lines.iter().enumerate() {
+        let text = line.text();
+        let reads_poisoned = idents(&text).iter().any(|t| poisoned.contains(t));
+        // model: the line as the last line of the single program made of everything that completed
+        let m = model_eval(&p, Some(&text));
+        res.model_steps += m.steps;
+        if m.injected == Injected::Budget || (matches!(m.outcome, Outcome::Panic(_)) && line.fail == Fail::None) {
+            // outside the domain the model is defined on (e.g. more than 65535 bytes of code)
+            res.inconsistent = true;
+            break;
+        }
+        // what the generator promised must be what the model says, else the case is discarded
+        let promised_ok = line.fail == Fail::None;
+        if promised_ok != m.outcome.is_ok() {
+            res.inconsistent = true;
+            if verbose {
+                res.transcript.push(format!("line {} discarded: generator promised {:?}, model says {}", li, line.fail, m.outcome.render()));
+            }
+            break;
+        }
+        let crash_here = matches!(spec.crash, Some((l, _)) if l == li);
+        let mut plan = Plan::plain();
+        plan.budget = 4 * m.steps + 1000;
+        plan.alloc_mode = spec.alloc_mode;
+        plan.track_survivors = true;
+        if spec.collect_every_step {
+            plan.collect = CollectPlan::Every;
+        }
+        if crash_here {
+            plan.crash_at = spec.crash.map(|(_, k)| k);
+        }
+        let r = s.run_line(&text, &plan);
+        res.lines_run += 1;
+        res.steps += r.steps;
+        res.line_steps.push(r.steps);
+        res.collections += r.collections;
+        log.u64(r.log);
+        log.str(&r.outcome.render());
+        log.str(&r.out);
+        if last_fail != "none" {
+            res.lines_after_failure += 1;
+        }
+        let injected_now = crash_here && r.injected == Injected::Crash;
+        let label = if injected_now { format!("{}!inject", line.label) } else { line.label.clone() };
+        skeleton.push(label.clone());
+        if verbose {
+            res.transcript.push(format!(
+                "line {} [{}] {:?}\n      session: {} | out={:?} (steps {}, effects {}, {:?})\n      model  : {} | out={:?}",
+                li,
+                label,
+                text,
+                r.outcome.render(),
+                r.out,
+                r.steps,
+                r.effects,
+                r.injected,
+                m.outcome.render(),
+                m.out.strip_prefix(out_p.as_str()).unwrap_or(&m.out)
+            ));
+        }
+        // heap invariants hold across the whole session
+        let mut stop = false;
+        for f in &r.findings {
+            if HEAP_CLASSES.contains(&f.class.as_str()) {
+                findings.push(Finding {
+                    class: f.class.clone(),
+                    key: format!("{}|after:{}", f.key, last_fail),
+                    detail: format!("line {} ({:?}): {}", li, text, f.detail),
+                });
+                stop = true;
+            }
+        }
+        if stop {
+            break;
+        }
+        if injected_now {
+            res.injected_fired = true;
+            res.crash_tuple = Some((r.frames_at_crash.min(6), crate::engine_crash::bucket(r.stack_at_crash), r.effects.min(8)));
+            // the injected failure must come out as the injected error
+            let ok = matches!(&r.outcome, Outcome::Err(k, msg) if k == "TypeError" && msg == nederlang::verif::INJECTED_FAILURE);
+            if !ok {
+                findings.push(Finding {
+                    class: "line-outcome-differs".into(),
+                    key: format!("injected->{}|after:{}", kind_of(&r.outcome, &r.injected), last_fail),
+                    detail: format!("line {} ({:?}) cut short at instruction {} ended with {}", li, text, plan.crash_at.unwrap(), r.outcome.render()),
+                });
+                break;
+            }
+            // the assignments it completed before failing stay
+            let eq = line.equiv();
+            let e = (r.effects as usize).min(eq.len());
+            p.extend(eq[..e].iter().cloned());
+            let done: Vec<String> = declared(&eq[..e].join(" "));
+            for n in declared(&text) {
+                if !done.contains(&n) {
+                    poisoned.push(n);
+                }
+            }
+            if e > 0 {
+                let m2 = model_eval(&p, None);
+                out_p = m2.out;
+            }
+            last_fail = "inject".into();
+            continue;
+        }
+        // expected: the model's outcome with the output of P removed from the front
+        let exp_out = m.out.strip_prefix(out_p.as_str()).unwrap_or(&m.out).to_string();
+        let exp_kind = m.outcome.kind();
+        let got_kind = kind_of(&r.outcome, &r.injected);
+        let same = match (&m.outcome, &r.outcome) {
+            (Outcome::Ok(a), Outcome::Ok(b)) => !line.has_value || a == b,
+            (Outcome::Err(k1, m1), Outcome::Err(k2, m2)) => k1 == k2 && m1 == m2 && r.injected == Injected::None,
+            (Outcome::Panic(_), Outcome::Panic(_)) => true,
+            _ => false,
+        };
+        if !same {
+            let class = if reads_poisoned {
+                // DESIGN.md 4.3 item 9: its own class, so that it is never confused with anything else
+                "read-of-name-declared-by-failed-line"
+            } else if matches!(r.injected, Injected::Guard(_)) {
+                "wild-execution"
+            } else if r.injected == Injected::Budget {
+                "progress"
+            } else {
+                "line-outcome-differs"
+            };
+            let last_fail = if reads_poisoned { "any".to_string() } else { last_fail.clone() };
+            findings.push(Finding {
+                class: class.into(),
+                key: if reads_poisoned { "compiler-knows-the-name-machine-never-assigned-it".to_string() } else { format!("{}->{}|after:{}", exp_kind, got_kind, last_fail) },
+                detail: format!(
+                    "line {} ({:?}): as the last line of the single program of all completed earlier lines it gives {} ; on the retained compiler+machine it gives {}{}",
+                    li,
+                    text,
+                    m.outcome.render(),
+                    r.outcome.render(),
+                    match &r.injected { Injected::Guard(g) => format!(" (stopped by guard: {})", g), Injected::Budget => " (step budget exceeded)".to_string(), _ => String::new() }
+                ),
+            });
+            break;
+        }
+        if exp_out != r.out {
+            findings.push(Finding {
+                class: "line-output-differs".into(),
+                key: format!("{}|after:{}", exp_kind, last_fail),
+                detail: format!("line {} ({:?}): expected output {:?}, got {:?}", li, text, exp_out, r.out),
+            });
+            break;
+        }
+        // extend P
+        match (&line.fail, &m.outcome) {
+            (Fail::None, _) => {
+                p.extend(line.stmts.iter().map(|s| s.src.clone()));
+                out_p = m.out.clone();
+                if matches!(&r.outcome, Outcome::Ok(v) if v.contains('"') || v.contains('[') || v.contains('/')) && li > 0 {
+                    res.heap_values_crossed_lines = true;
+                }
+            }
+            (Fail::Run(idx), _) => {
+                let idx = (*idx).min(line.stmts.len());
+                let done: Vec<String> = declared(&line.stmts[..idx].iter().map(|s| s.src.as_str()).collect::<Vec<_>>().join(" "));
+                for n in declared(&text) {
+                    if !done.contains(&n) {
+                        poisoned.push(n);
+                    }
+                }
+                if idx > 0 {
+                    p.extend(line.stmts[..idx].iter().map(|s| s.src.clone()));
+                    // sanity: the completed part must succeed on its own
+                    let m2 = model_eval(&p, None);
+                    if !m2.outcome.is_ok() {
+                        res.inconsistent = true;
+                        break;
+                    }
+                    out_p = m2.out;
+                }
+                last_fail = "run".into();
+            }
+            (Fail::Parse, _) => last_fail = "parse".into(),
+            (Fail::Compile, _) => last_fail = "compile".into(),
+        }
+        if reads_poisoned {
+            res.read_poisoned = true;
+            break;
+        }
+        if matches!(m.outcome, Outcome::Panic(_)) {
+            // both panicked identically: the pair is in an unknown state, stop here
+            break;
+        }
+    }
+    let end = s.finish();
+    for f in end {
+        if HEAP_CLASSES.contains(&f.class.as_str()) && findings.is_empty() {
+            findings.push(Finding {
+                class: f.class.clone(),
+                key: format!("{}|at-session-end", f.key),
+                detail: format!("when the pair was dropped and the handed-out values released: {}", f.detail),
+            });
+        }
+    }
+    log.u64(findings.len() as u64);
+    res.findings = findings;
+    res.log = log.0;
+    res.skeleton = skeleton.join(",");
+    res
+}
+
+// ---------------------------------------------------------------------------------------------
+// line alphabet (complete enumeration of short sessions)
+
+#[derive(Clone, Debug)]
+struct GEnv {
+    /// completed globals: (name, kind) with kind in int, float, str (literal), fresh (string(n)), arr
+    globals: Vec<(String, &'static str)>,
+}
+
+impl GEnv {
+    fn latest(&self, kind: &str) -> Option<String> {
+        self.globals.iter().rev().find(|(_, k)| *k == kind).map(|(n, _)| n.clone())
+    }
+    fn latest_any(&self) -> Option<String> {
+        self.globals.last().map(|(n, _)| n.clone())
+    }
+}
+
+fn st(src: &str, effect: bool) -> SStmt {
+    SStmt { src: src.to_string(), effect }
+}
+
+fn line(label: &str, stmts: Vec<SStmt>, fail: Fail, has_value: bool, injectable: bool) -> SLine {
+    SLine {
+        label: label.to_string(),
+        stmts,
+        fail,
+        has_value,
+        injectable,
+        effect_equiv: None,
+    }
+}
+
+pub const ALPHABET: usize = 22;
+
+/// Template `t` at session position `pos` (names are position-based, so never re-declared).
+fn template(t: usize, pos: usize, env: &mut GEnv) -> SLine {
+    let g = format!("g{}", pos);
+    let f = format!("f{}", pos);
+    let mut decl = |env: &mut GEnv, kind: &'static str| env.globals.push((g.clone(), kind));
+    match t {
+        0 => {
+            decl(env, "int");
+            line("decl-int", vec![st(&format!("stel {} = 7;", g), true)], Fail::None, false, true)
+        }
+        1 => {
+            decl(env, "str");
+            line("decl-str", vec![st(&format!("stel {} = \"tekst\";", g), true)], Fail::None, false, true)
+        }
+        2 => {
+            decl(env, "fresh");
+            line("decl-fresh-str", vec![st(&format!("stel {} = string(12345);", g), true)], Fail::None, false, true)
+        }
+        3 => {
+            decl(env, "arr");
+            line("decl-arr", vec![st(&format!("stel {} = [1, \"a\", 2.5];", g), true)], Fail::None, false, true)
+        }
+        4 => {
+            decl(env, "float");
+            line("decl-float", vec![st(&format!("stel {} = 2.5;", g), true)], Fail::None, false, true)
+        }
+        5 => match env.latest("int") {
+            Some(n) => line("assign-int", vec![st(&format!("{n} = {n} + 1;", n = n), true)], Fail::None, true, true),
+            None => template(0, pos, env),
+        },
+        6 => match env.latest_any() {
+            Some(n) => line("read", vec![st(&format!("{};", n), false)], Fail::None, true, true),
+            None => line("read", vec![st("0;", false)], Fail::None, true, true),
+        },
+        7 => {
+            decl(env, "arr");
+            line(
+                "func-then-decl",
+                vec![
+                    st(&format!("functie {}(a) {{ stel t = [a, \"x\"]; t }};", f), true),
+                    st(&format!("stel {} = {}(3);", g, f), true),
+                ],
+                Fail::None,
+                false,
+                true,
+            )
+        }
+        8 => line(
+            "func-call-value",
+            vec![st(&format!("functie {}() {{ \"s\" }};", f), true), st(&format!("{}();", f), false)],
+            Fail::None,
+            true,
+            true,
+        ),
+        9 => match env.latest("arr") {
+            Some(n) => line("elem-assign", vec![st(&format!("{}[0] = string(9);", n), true)], Fail::None, true, true),
+            None => template(3, pos, env),
+        },
+        10 => match env.latest("fresh") {
+            Some(n) => line("str-elem-assign", vec![st(&format!("{}[0] = \"z\";", n), true)], Fail::None, true, true),
+            None => template(2, pos, env),
+        },
+        11 => {
+            let i = format!("i{}", pos);
+            env.globals.push((i.clone(), "int"));
+            let mut l = line(
+                "loop",
+                vec![
+                    st(&format!("stel {} = 0;", i), true),
+                    st(&format!("zolang {i} < 3 {{ {i} = {i} + 1; }};", i = i), true),
+                    st(&format!("{};", i), false),
+                ],
+                Fail::None,
+                true,
+                true,
+            );
+            l.effect_equiv = Some(vec![
+                format!("stel {} = 0;", i),
+                format!("{} = 1;", i),
+                format!("{} = 2;", i),
+                format!("{} = 3;", i),
+            ]);
+            l
+        }
+        12 => line("parse-fail", vec![st(&format!("stel {} = (1 + ", g), false)], Fail::Parse, false, false),
+        13 => line(
+            "compile-fail-after-decl",
+            vec![st(&format!("stel {} = 1;", g), true), st("onbekend;", false)],
+            Fail::Compile,
+            false,
+            false,
+        ),
+        14 => line("compile-fail-stop", vec![st("stop;", false)], Fail::Compile, false, false),
+        15 => line(
+            "compile-fail-nested",
+            vec![st(&format!("functie {}() {{ stel a = 1; {{ onbekend{} }} }};", f, pos), false)],
+            Fail::Compile,
+            false,
+            false,
+        ),
+        16 => {
+            decl(env, "arr");
+            line(
+                "run-fail-after-decl",
+                vec![st(&format!("stel {} = [1.5, \"q\"];", g), true), st("1 + ja;", false)],
+                Fail::Run(1),
+                false,
+                false,
+            )
+        }
+        17 => line(
+            "run-fail-in-calls",
+            vec![
+                st(&format!("functie {}(a) {{ stel l = [a, \"k\"]; [l, 1 + ja] }};", f), true),
+                st(&format!("functie h{}() {{ {}(\"p\") }};", pos, f), true),
+                st(&format!("[\"q\", h{}()];", pos), false),
+            ],
+            Fail::Run(2),
+            false,
+            false,
+        ),
+        18 => line(
+            "run-fail-mid-statement",
+            vec![st(&format!("stel {} = [\"a\", [1][3]];", g), false)],
+            Fail::Run(0),
+            false,
+            false,
+        ),
+        19 => match env.latest("arr") {
+            Some(n) => line(
+                "collect-then-read",
+                vec![st(&format!("functie {}() {{ 0 }};", f), true), st(&format!("{}();", f), false), st(&format!("{}[1];", n), false)],
+                Fail::None,
+                true,
+                true,
+            ),
+            None => line(
+                "collect-then-read",
+                vec![st(&format!("functie {}() {{ 0 }};", f), true), st(&format!("{}();", f), false)],
+                Fail::None,
+                true,
+                true,
+            ),
+        },
+        20 => match env.latest_any() {
+            Some(n) => line("print", vec![st(&format!("print(\"v={{}}\", {});", n), false)], Fail::None, true, true),
+            None => line("print", vec![st("print(\"leeg\");", false)], Fail::None, true, true),
+        },
+        _ => match env.latest("arr") {
+            // a value handed out earlier (the array) receives a fresh element, a collection runs, it is read again
+            Some(n) => line(
+                "store-into-shared-array",
+                vec![
+                    st(&format!("{}[1] = string(77);", n), true),
+                    st(&format!("functie {}() {{ 1 }};", f), true),
+                    st(&format!("{}();", f), false),
+                    st(&format!("{};", n), false),
+                ],
+                Fail::None,
+                true,
+                true,
+            ),
+            None => template(3, pos, env),
+        },
+    }
+}
+
+fn enumerated_session(mut code: u64, len: usize) -> Vec<SLine> {
+    let mut env = GEnv { globals: Vec::new() };
+    let mut lines = Vec::new();
+    for pos in 0..len {
+        let t = (code % ALPHABET as u64) as usize;
+        code /= ALPHABET as u64;
+        let before = env.clone();
+        let l = template(t, pos, &mut env);
+        // names declared by a line that does not complete are not available afterwards
+        match &l.fail {
+            Fail::None => {}
+            Fail::Run(idx) => {
+                // keep only what the completed statements declared: re-derive
+                let mut e2 = before.clone();
+                let completed: String = l.stmts[..*idx].iter().map(|s| s.src.as_str()).collect::<Vec<_>>().join(" ");
+                for (n, k) in env.globals.iter().skip(before.globals.len()) {
+                    if completed.contains(&format!("stel {} ", n)) {
+                        e2.globals.push((n.clone(), k));
+                    }
+                }
+                env = e2;
+            }
+            _ => env = before,
+        }
+        lines.push(l);
+    }
+    lines
+}
+
+// ---------------------------------------------------------------------------------------------
+// random sessions
+
+struct SGen<'a> {
+    rng: &'a mut Rng,
+    globals: Vec<Var>,
+    counters: (usize, usize, usize),
+    cfg: Swarm,
+    /// functions defined on the line being generated (callable on this line only)
+    line_funs: Vec<(String, Vec<Ty>, Ty)>,
+}
+
+impl<'a> SGen<'a> {
+    fn with_gen<T>(&mut self, f: impl FnOnce(&mut Gen) -> T) -> T {
+        let mut g = Gen::new(self.rng, self.cfg.clone());
+        g.no_global_writes = true;
+        for v in &self.globals {
+            g.add_global(v.clone());
+        }
+        g.set_counters(self.counters.0, self.counters.1, self.counters.2);
+        let r = f(&mut g);
+        self.counters = g.counters();
+        r
+    }
+
+    fn fresh(&mut self) -> String {
+        let n = format!("v{}", self.counters.0);
+        self.counters.0 += 1;
+        n
+    }
+
+    fn add(&mut self, name: &str, ty: Ty, min_len: usize) {
+        self.globals.push(Var {
+            name: name.to_string(),
+            ty,
+            min_len,
+            global_top: true,
+            frozen: false,
+        });
+    }
+
+    fn wrap_int(ty: &Ty, e: String) -> String {
+        if *ty == Ty::Int {
+            format!("({} % 1000003)", e)
+        } else {
+            e
+        }
+    }
+
+    /// one atomic-effect or pure statement; returns (stmt, declared var)
+    fn atomic_stmt(&mut self) -> (SStmt, Option<(String, Ty, usize)>, &'static str) {
+        let depth = 1 + self.rng.usize(3);
+        match self.rng.below(10) {
+            0 | 1 | 2 => {
+                // declaration
+                let ty = self.with_gen(|g| g.value_ty());
+                let name = self.fresh();
+                if ty == Ty::Str && self.rng.chance(1, 2) {
+                    let n = 10 + self.rng.below(99990);
+                    return (st(&format!("stel {} = string({});", name, n), true), Some((name, ty, 2)), "decl");
+                }
+                let e = self.with_gen(|g| g.expr(&ty, depth));
+                let e = Self::wrap_int(&ty, e);
+                (st(&format!("stel {} = {};", name, e), true), Some((name, ty, 0)), "decl")
+            }
+            3 | 4 => {
+                // assignment to an existing global of the same type (strings with a known length stay)
+                let c: Vec<Var> = self.globals.iter().filter(|v| !(v.ty == Ty::Str && v.min_len > 0)).cloned().collect();
+                if c.is_empty() {
+                    return self.atomic_stmt();
+                }
+                let v = self.rng.pick(&c).clone();
+                let e = self.with_gen(|g| g.expr(&v.ty, depth));
+                let e = Self::wrap_int(&v.ty, e);
+                (st(&format!("{} = {};", v.name, e), true), None, "assign")
+            }
+            5 => {
+                // element assignment on a global array
+                let c: Vec<Var> = self.globals.iter().filter(|v| matches!(&v.ty, Ty::Arr(_, n) | Ty::AnyArr(n) if *n > 0)).cloned().collect();
+                if c.is_empty() {
+                    return self.atomic_stmt();
+                }
+                let v = self.rng.pick(&c).clone();
+                match &v.ty {
+                    Ty::Arr(el, n) => {
+                        let (el, n) = ((**el).clone(), *n);
+                        let idx = self.with_gen(|g| g.index_for(n));
+                        let e = self.with_gen(|g| g.expr(&el, depth));
+                        let e = Self::wrap_int(&el, e);
+                        (st(&format!("{}[{}] = {};", v.name, idx, e), true), None, "elem-assign")
+                    }
+                    Ty::AnyArr(n) => {
+                        let n = *n;
+                        let idx = self.with_gen(|g| g.index_for(n));
+                        let ty = self.with_gen(|g| g.value_ty());
+                        let e = self.with_gen(|g| g.expr(&ty, depth));
+                        (st(&format!("{}[{}] = {};", v.name, idx, e), true), None, "elem-assign")
+                    }
+                    _ => unreachable!(),
+                }
+            }
+            6 => {
+                // in-place change of a fresh string
+                let c: Vec<Var> = self.globals.iter().filter(|v| v.ty == Ty::Str && v.min_len > 0).cloned().collect();
+                if c.is_empty() {
+                    return self.atomic_stmt();
+                }
+                let v = self.rng.pick(&c).clone();
+                let i = self.rng.usize(v.min_len);
+                let ch = *self.rng.pick(&["a", "Z", "é", "0"]);
+                (st(&format!("{}[{}] = \"{}\";", v.name, i, ch), true), None, "str-elem-assign")
+            }
+            7 => {
+                // self-contained function definition (never called from a later line)
+                let name = format!("f{}", self.counters.1);
+                self.counters.1 += 1;
+                let ret = self.with_gen(|g| g.value_ty());
+                let nparams = self.rng.usize(3);
+                let params: Vec<Ty> = (0..nparams)
+                    .map(|_| match self.rng.below(4) {
+                        0 => Ty::Int,
+                        1 => Ty::Float,
+                        2 => Ty::Bool,
+                        _ => Ty::Str,
+                    })
+                    .collect();
+                let lit = self.with_gen(|g| g.function_literal(&name, &params, &ret, 2));
+                // remember it for the rest of this line only (caller adds it to the line-local list)
+                self.line_funs.push((name.clone(), params, ret));
+                (st(&format!("{};", lit), true), None, "func")
+            }
+            8 if !self.line_funs.is_empty() => {
+                // call of a function defined on this line, result kept in a new global
+                let (fname, params, ret) = self.rng.pick(&self.line_funs).clone();
+                let args: Vec<String> = params.iter().map(|t| self.with_gen(|g| g.expr(t, 1))).collect();
+                let name = self.fresh();
+                (st(&format!("stel {} = {}({});", name, fname, args.join(", ")), true), Some((name, ret, 0)), "call-decl")
+            }
+            _ => {
+                // pure expression statement (the line's value)
+                if !self.line_funs.is_empty() && self.rng.chance(1, 2) {
+                    let (fname, params, _) = self.rng.pick(&self.line_funs).clone();
+                    let args: Vec<String> = params.iter().map(|t| self.with_gen(|g| g.expr(t, 1))).collect();
+                    return (st(&format!("{}({});", fname, args.join(", ")), false), None, "call");
+                }
+                let ty = self.with_gen(|g| g.value_ty());
+                let e = self.with_gen(|g| g.expr(&ty, depth));
+                (st(&format!("{};", e), false), None, "expr")
+            }
+        }
+    }
+}
+
+// line-local function list lives beside SGen (kept simple: a field)
+impl<'a> SGen<'a> {
+    fn new(rng: &'a mut Rng) -> SGen<'a> {
+        let mut cfg = Swarm::draw(rng, true);
+        cfg.w_print = cfg.w_print.min(1);
+        SGen {
+            rng,
+            globals: Vec::new(),
+            counters: (0, 0, 0),
+            cfg,
+            line_funs: Vec::new(),
+        }
+    }
+}
+
+const RUN_FAILS: &[&str] = &["(1 + ja);", "[1, 2][5];", "int(\"x\");", "lengte(1);", "(!5);", "[\"a\", (2.5 + 1)];", "\"abc\"[7];"];
+const PARSE_FAILS: &[&str] = &["stel = 1", "(1 + ", "[1, 2", "als { }", "1 +", "stel q 5", "zolang ja", "{ 1; ", "\"abc", "1 2 )"];
+
+impl<'a> SGen<'a> {
+    fn ok_line(&mut self, progressive: bool) -> SLine {
+        self.line_funs.clear();
+        if progressive {
+            // a top-level loop over a global counter: effects are progressive, so no injection here
+            let c: Vec<Var> = self.globals.iter().filter(|v| v.ty == Ty::Int).cloned().collect();
+            let i = self.fresh();
+            let bound = 1 + self.rng.below(4);
+            let body = if !c.is_empty() && self.rng.chance(2, 3) {
+                let v = self.rng.pick(&c).clone();
+                format!("{v} = (({v} + {i}) % 1000003);", v = v.name, i = i)
+            } else {
+                format!("string({});", i)
+            };
+            let l = line(
+                "loop",
+                vec![
+                    st(&format!("stel {} = 0;", i), true),
+                    st(&format!("zolang {i} < {b} {{ {i} = {i} + 1; {body} }};", i = i, b = bound, body = body), true),
+                    st(&format!("{};", i), false),
+                ],
+                Fail::None,
+                true,
+                false,
+            );
+            self.add(&i, Ty::Int, 0);
+            return l;
+        }
+        let n = 1 + self.rng.usize(4);
+        let mut stmts = Vec::new();
+        let mut labels = Vec::new();
+        let mut pending: Vec<(String, Ty, usize)> = Vec::new();
+        for _ in 0..n {
+            let (s, d, lab) = self.atomic_stmt();
+            labels.push(lab);
+            stmts.push(s);
+            if let Some((name, ty, ml)) = d {
+                // visible to the following statements of the same line too
+                self.add(&name, ty.clone(), ml);
+                pending.push((name, ty, ml));
+            }
+        }
+        let has_value = stmts.last().map(|s| !s.src.starts_with("stel ") && !s.src.starts_with("functie ")).unwrap_or(false);
+        labels.dedup();
+        let _ = pending;
+        line(&labels.join("+"), stmts, Fail::None, has_value, true)
+    }
+
+    fn failing_line(&mut self) -> SLine {
+        self.line_funs.clear();
+        match self.rng.below(7) {
+            0 => {
+                // parse failure, possibly after valid statements on the same line
+                let mut stmts = Vec::new();
+                let before = self.globals.len();
+                let saved = self.counters;
+                if self.rng.chance(1, 2) {
+                    let (s, d, _) = self.atomic_stmt();
+                    stmts.push(s);
+                    let _ = d;
+                }
+                self.globals.truncate(before);
+                self.line_funs.clear();
+                let _ = saved;
+                stmts.push(st(*self.rng.pick(PARSE_FAILS), false));
+                line("parse-fail", stmts, Fail::Parse, false, false)
+            }
+            1 | 2 => {
+                // compile failure at a random statement position and nesting depth
+                let before = self.globals.len();
+                let k = self.rng.usize(3);
+                let mut stmts = Vec::new();
+                for _ in 0..k {
+                    let (s, d, _) = self.atomic_stmt();
+                    stmts.push(s);
+                    if let Some((name, ty, ml)) = d {
+                        self.add(&name, ty, ml);
+                    }
+                }
+                let u = format!("onbekend{}", self.counters.0);
+                let bad = match self.rng.below(6) {
+                    0 => format!("{};", u),
+                    1 => "stop;".to_string(),
+                    2 => "volgende;".to_string(),
+                    3 => format!("als ja {{ stel t{} = 1; {}; }};", self.counters.0, u),
+                    4 => format!("functie f{}(a) {{ stel b = [a]; {{ {} }} }};", self.counters.1 + 50, u),
+                    _ => format!("stel w{} = [1, \"s\", {}];", self.counters.0, u),
+                };
+                stmts.push(st(&bad, false));
+                // nothing of this line exists afterwards
+                self.globals.truncate(before);
+                self.line_funs.clear();
+                line("compile-fail", stmts, Fail::Compile, false, false)
+            }
+            _ => {
+                // run-time failure after j complete statements
+                let j = self.rng.usize(3);
+                let mut stmts = Vec::new();
+                for _ in 0..j {
+                    let (s, d, _) = self.atomic_stmt();
+                    stmts.push(s);
+                    if let Some((name, ty, ml)) = d {
+                        self.add(&name, ty, ml);
+                    }
+                }
+                let bad = match self.rng.below(4) {
+                    0 => {
+                        // inside a call chain
+                        let a = self.counters.1;
+                        self.counters.1 += 2;
+                        stmts.push(st(&format!("functie f{}(a) {{ stel l = [a, \"k\"]; [l, {}] }};", a, self.rng.pick(RUN_FAILS).trim_end_matches(';')), true));
+                        stmts.push(st(&format!("functie f{}() {{ f{}(\"p\") }};", a + 1, a), true));
+                        format!("[\"q\", f{}()];", a + 1)
+                    }
+                    1 => {
+                        // inside a loop inside a function
+                        let a = self.counters.1;
+                        self.counters.1 += 1;
+                        stmts.push(st(
+                            &format!("functie f{}() {{ stel i = 0; zolang i < 3 {{ i = i + 1; als i == 2 {{ {} }}; }}; i }};", a, self.rng.pick(RUN_FAILS)),
+                            true,
+                        ));
+                        format!("f{}();", a)
+                    }
+                    _ => self.rng.pick(RUN_FAILS).to_string(),
+                };
+                let idx = stmts.len();
+                stmts.push(st(&bad, false));
+                self.line_funs.clear();
+                line("run-fail", stmts, Fail::Run(idx), false, false)
+            }
+        }
+    }
+}
+
+fn random_session(rng: &mut Rng) -> SessionSpec {
+    let nlines = 2 + rng.usize(11);
+    let fail_ratio = 10 + rng.below(40);
+    let collect_every_step = rng.chance(1, 4);
+    let alloc_mode = match rng.below(4) {
+        0 => alloc::MOVE,
+        1 => alloc::POISON,
+        _ => alloc::PLAIN,
+    };
+    let mut g = SGen::new(rng);
+    let mut lines = Vec::new();
+    for _ in 0..nlines {
+        let l = if g.rng.below(100) < fail_ratio {
+            g.failing_line()
+        } else {
+            let progressive = g.rng.chance(1, 8);
+            g.ok_line(progressive)
+        };
+        lines.push(l);
+    }
+    // optionally one injected failure in an injectable line (position chosen now, step chosen by the caller)
+    SessionSpec {
+        lines,
+        crash: None,
+        collect_every_step,
+        alloc_mode,
+    }
+}
+
+// ---------------------------------------------------------------------------------------------
+// directed sessions
+
+fn directed(i: usize) -> Option<SessionSpec> {
+    let mk = |lines: Vec<SLine>| SessionSpec { lines, crash: None, collect_every_step: false, alloc_mode: alloc::PLAIN };
+    match i {
+        0 => {
+            // many failing lines that each leave operands and frames behind, then function calls
+            let mut lines = Vec::new();
+            for k in 0..400 {
+                let pad: Vec<String> = (0..170).map(|j| format!("{}", j)).collect();
+                // an anonymous function called on the spot: no top-level effect, so the model does not grow
+                lines.push(line(
+                    "run-fail-residue",
+                    vec![st(
+                        &format!("[\"x\", functie() {{ functie r(a) {{ [{pad}, 1 + ja] }}; [{k}, 2, r(3)] }}()];", k = k, pad = pad.join(", ")),
+                        false,
+                    )],
+                    Fail::Run(0),
+                    false,
+                    false,
+                ));
+            }
+            lines.push(line("decl-int", vec![st("stel na = 5;", true)], Fail::None, false, true));
+            lines.push(line(
+                "func-call-value",
+                vec![st("functie fib(n) { als n < 2 { antwoord n; }; fib(n - 1) + fib(n - 2) };", true), st("fib(10) + na;", false)],
+                Fail::None,
+                true,
+                true,
+            ));
+            Some(mk(lines))
+        }
+        1 => {
+            // a failing compile inside nested blocks/functions, then a declaration and a function reading it
+            Some(mk(vec![
+                line("decl-int", vec![st("stel a = 1;", true)], Fail::None, false, true),
+                line("compile-fail-nested", vec![st("functie kapot(p) { stel q = [p]; { { stel r = 2; onbekend_x } } };", false)], Fail::Compile, false, false),
+                line("decl-int", vec![st("stel b = 2;", true)], Fail::None, false, true),
+                line(
+                    "func-call-value",
+                    vec![st("functie leest() { stel l = 10; a + b + l };", true), st("leest();", false)],
+                    Fail::None,
+                    true,
+                    true,
+                ),
+                line("compile-fail-loop", vec![st("zolang nee { als ja { stop; }; onbekend_y; };", false)], Fail::Compile, false, false),
+                line("loop", vec![st("stel k = 0;", true), st("zolang k < 3 { k = k + 1; als k == 2 { stop; }; };", true), st("k;", false)], Fail::None, true, false),
+            ]))
+        }
+        2 => {
+            // heap-valued globals read, mutated and collected on later lines
+            Some(mk(vec![
+                line("decl-fresh-str", vec![st("stel s = string(4711);", true)], Fail::None, false, true),
+                line("decl-arr", vec![st("stel a = [s, 2.5, [\"in\"]];", true)], Fail::None, false, true),
+                line("func-call-value", vec![st("functie f() { [\"tmp\", 1.5] };", true), st("f();", false)], Fail::None, true, true),
+                line("read", vec![st("a;", false)], Fail::None, true, true),
+                line("str-elem-assign", vec![st("s[0] = \"X\";", true)], Fail::None, true, true),
+                line("elem-assign", vec![st("a[1] = string(99);", true)], Fail::None, true, true),
+                line("func-call-value", vec![st("functie g() { 0 };", true), st("g();", false)], Fail::None, true, true),
+                line("read", vec![st("[a, s];", false)], Fail::None, true, true),
+                line("run-fail", vec![st("stel t = [a, \"nieuw\"];", true), st("[1][2];", false)], Fail::Run(1), false, false),
+                line("read", vec![st("t;", false)], Fail::None, true, true),
+            ]))
+        }
+        3 => {
+            // compile failure whose valid prefix must not run later
+            Some(mk(vec![
+                line("decl-int", vec![st("stel a = 1;", true)], Fail::None, false, true),
+                line("compile-fail-after-assign", vec![st("stel b = 2;", true), st("a = [b, onbekend];", false)], Fail::Compile, false, false),
+                line("read", vec![st("a;", false)], Fail::None, true, true),
+                line("compile-fail-stop", vec![st("stop;", false)], Fail::Compile, false, false),
+                line("read", vec![st("2;", false)], Fail::None, true, true),
+            ]))
+        }
+        4 => {
+            // a value handed out on one line keeps being used through a global on later lines
+            Some(mk(vec![
+                line("decl-arr", vec![st("stel a = [1, 2];", true)], Fail::None, false, true),
+                line("read", vec![st("a;", false)], Fail::None, true, true),
+                line("elem-assign", vec![st("a[0] = string(5);", true)], Fail::None, true, true),
+                line("func-call-value", vec![st("functie f() { 1 };", true), st("f();", false)], Fail::None, true, true),
+                line("read", vec![st("a;", false)], Fail::None, true, true),
+                line("read", vec![st("a[0];", false)], Fail::None, true, true),
+            ]))
+        }
+        5 => {
+            // run-time failures in every position of a statement, then reads
+            Some(mk(vec![
+                line("decl-arr", vec![st("stel a = [\"x\", 1.5];", true)], Fail::None, false, true),
+                line("run-fail", vec![st("a[0] = [a, 1 + ja];", false)], Fail::Run(0), false, false),
+                line("read", vec![st("a;", false)], Fail::None, true, true),
+                line("run-fail", vec![st("functie f(p) { stel q = [p, p]; q[5] };", true), st("stel b = [a, f(a)];", false)], Fail::Run(1), false, false),
+                line("read", vec![st("a[1];", false)], Fail::None, true, true),
+                line("func-call-value", vec![st("functie g(n) { als n < 1 { antwoord [n]; }; [n, g(n - 1)] };", true), st("g(5);", false)], Fail::None, true, true),
+            ]))
+        }
+        6 => {
+            // DESIGN.md 4.3 item 9: a name declared by the part of a line that never completed
+            Some(mk(vec![
+                line("run-fail-mid-statement", vec![st("stel x = 1 + ja;", false)], Fail::Run(0), false, false),
+                line("read", vec![st("x;", false)], Fail::None, true, true),
+            ]))
+        }
+        7 => {
+            // the same, with a later declaration in between (the machine pads its globals)
+            Some(mk(vec![
+                line("run-fail-mid-statement", vec![st("stel x = [1, 2][5];", false)], Fail::Run(0), false, false),
+                line("decl-int", vec![st("stel y = 2;", true)], Fail::None, false, true),
+                line("read", vec![st("[x, y];", false)], Fail::None, true, true),
+            ]))
+        }
+        8 => {
+            // results handed out while variables still refer to them, then changed through the variables
+            Some(mk(vec![
+                line("decl-arr", vec![st("stel a = [[1.5], \"s\"];", true)], Fail::None, false, true),
+                line("read", vec![st("a;", false)], Fail::None, true, true),
+                line("elem-assign", vec![st("a[1] = [string(5), a];", true), st("0;", false)], Fail::None, true, true),
+                line("func-call-value", vec![st("functie f() { [2.5] };", true), st("f();", false)], Fail::None, true, true),
+                line("read", vec![st("a;", false)], Fail::None, true, true),
+                line("decl-arr", vec![st("stel b = [a, string(6)];", true)], Fail::None, false, true),
+                line("read", vec![st("b;", false)], Fail::None, true, true),
+                line("elem-assign", vec![st("b[1] = float(7);", true), st("a[0] = b;", true), st("1;", false)], Fail::None, true, true),
+                line("func-call-value", vec![st("functie g() { 0 };", true), st("g();", false), st("[a, b];", false)], Fail::None, true, true),
+            ]))
+        }
+        _ => None,
+    }
+}
+
+pub const DIRECTED: u64 = 9;
+
+// ---------------------------------------------------------------------------------------------
+// scenarios
+
+pub fn enumerated_count(tier: Tier) -> u64 {
+    let a = ALPHABET as u64;
+    match tier {
+        Tier::Quick => a + a * a,
+        Tier::Thorough => a + a * a + a * a * a,
+    }
+}
+
+pub fn scenarios(tier: Tier) -> u64 {
+    DIRECTED
+        + enumerated_count(tier)
+        + match tier {
+            Tier::Quick => 1_500,
+            Tier::Thorough => 40_000,
+        }
+}
+
+fn report(acc: &mut Acc, spec: &SessionSpec, r: &SessionResult, seed: u64, index: u64) {
+    for f in &r.findings {
+        if f.class.starts_with("harness:") {
+            acc.count("harness_findings", 1);
+            continue;
+        }
+        let mut sp = spec.to_json();
+        sp["expect"] = json!({"class": f.class, "key": f.key});
+        acc.violation(Violation {
+            property: PROPERTY.into(),
+            class: f.class.clone(),
+            key: f.key.clone(),
+            detail: f.detail.clone(),
+            spec: sp,
+            seed,
+            index,
+        });
+    }
+}
+
+fn account(acc: &mut Acc, spec: &SessionSpec, r: &SessionResult) {
+    acc.count("sessions", 1);
+    acc.count("lines", r.lines_run as u64);
+    acc.count("sim_steps", r.steps);
+    acc.count("model_steps", r.model_steps);
+    acc.count("collections", r.collections);
+    acc.count("probe_lines_run_after_a_failed_line", r.lines_after_failure);
+    if r.inconsistent {
+        acc.count("sessions_discarded_inconsistent", 1);
+    }
+    if r.injected_fired {
+        acc.count("fault_injected_failure_fired", 1);
+    }
+    if r.read_poisoned {
+        acc.count("probe_line_read_a_name_declared_by_a_failed_line", 1);
+    }
+    if r.heap_values_crossed_lines {
+        acc.count("probe_heap_value_on_later_line", 1);
+    }
+    if spec.collect_every_step {
+        acc.count("sessions_with_collection_at_every_step", 1);
+    }
+    for l in &spec.lines[..r.lines_run.min(spec.lines.len())] {
+        match &l.fail {
+            Fail::Parse => acc.count("fault_parse_failure", 1),
+            Fail::Compile => acc.count("fault_compile_failure", 1),
+            Fail::Run(_) => acc.count("fault_runtime_failure", 1),
+            Fail::None => {}
+        }
+    }
+    let mut f = Fold::new();
+    f.str(&r.skeleton);
+    if let Some((a, b, c)) = r.crash_tuple {
+        f.u64(a as u64);
+        f.u64(b as u64);
+        f.u64(c);
+        if a >= 2 {
+            acc.count("probe_injected_failure_inside_a_call", 1);
+        }
+        if b >= 2 {
+            acc.count("probe_injected_failure_with_pending_operands", 1);
+        }
+    }
+    acc.distinct("session_skeletons_x_crash_states", f.0);
+    if r.lines_after_failure > 0 && !r.inconsistent {
+        acc.distinct("nontrivial_cases", r.log);
+    }
+}
+
+/// Runs the base session and, for every injectable line, the session with a failure injected at
+/// every instruction k of that line (`all_k`) or at a few seeded ones.
+fn explore(acc: &mut Acc, base: &SessionSpec, seed: u64, index: u64, all_k: bool, rng: &mut Rng) -> u64 {
+    acc.begin(&base.to_json());
+    let r0 = run_session(base, false);
+    account(acc, base, &r0);
+    report(acc, base, &r0, seed, index);
+    let mut log = Fold::new();
+    log.u64(r0.log);
+    if r0.inconsistent || !r0.findings.is_empty() {
+        return log.0;
+    }
+    for (li, l) in base.lines.iter().enumerate() {
+        if !l.injectable || li >= r0.line_steps.len() {
+            continue;
+        }
+        let n = r0.line_steps[li];
+        let ks: Vec<u64> = if all_k || n <= 12 {
+            (0..n).collect()
+        } else {
+            let mut v: Vec<u64> = (0..4).map(|_| rng.below(n)).collect();
+            v.sort();
+            v.dedup();
+            v
+        };
+        for k in ks {
+            let mut sp = base.clone();
+            sp.crash = Some((li, k));
+            acc.begin(&sp.to_json());
+            let r = run_session(&sp, false);
+            account(acc, &sp, &r);
+            report(acc, &sp, &r, seed, index);
+            log.u64(r.log);
+        }
+    }
+    log.0
+}
+
+pub fn scenario(acc: &mut Acc, seed: u64, index: u64, tier: Tier) {
+    let s = mix(seed, TAG, index);
+    let mut rng = Rng::new(s);
+    let h;
+    if index < DIRECTED {
+        let sp = directed(index as usize).unwrap();
+        acc.count("directed_sessions", 1);
+        h = explore(acc, &sp, seed, index, index != 0, &mut rng);
+        if index == 2 {
+            acc.sample(json!({"directed_session": sp.lines.iter().map(|l| l.text()).collect::<Vec<_>>()}));
+        }
+    } else if index < DIRECTED + enumerated_count(tier) {
+        // complete enumeration of sessions of length 1, 2 (and 3 in the thorough tier) over the alphabet
+        let mut code = index - DIRECTED;
+        let a = ALPHABET as u64;
+        let len = if code < a {
+            1
+        } else if code < a + a * a {
+            code -= a;
+            2
+        } else {
+            code -= a + a * a;
+            3
+        };
+        let lines = enumerated_session(code, len);
+        let sp = SessionSpec { lines, crash: None, collect_every_step: false, alloc_mode: alloc::PLAIN };
+        acc.count("enumerated_sessions", 1);
+        h = explore(acc, &sp, seed, index, true, &mut rng);
+        // the same session once more with a collection at every instruction boundary
+        let mut sp2 = sp.clone();
+        sp2.collect_every_step = true;
+        acc.begin(&sp2.to_json());
+        let r2 = run_session(&sp2, false);
+        account(acc, &sp2, &r2);
+        report(acc, &sp2, &r2, seed, index);
+        if code % 97 == 5 {
+            acc.sample(json!({"enumerated_session": sp.lines.iter().map(|l| l.text()).collect::<Vec<_>>()}));
+        }
+    } else {
+        let sp = random_session(&mut rng);
+        acc.count("random_sessions", 1);
+        h = explore(acc, &sp, seed, index, false, &mut rng);
+        acc.sample(json!({"random_session": sp.lines.iter().map(|l| format!("[{}] {}", l.label, l.text())).collect::<Vec<_>>(), "collect_every_step": sp.collect_every_step, "alloc_mode": alloc::mode_name(sp.alloc_mode)}));
+    }
+    acc.log(index, h);
+}
+
+// ---------------------------------------------------------------------------------------------
+// replay and minimisation
+
+pub fn replay(sp: &Value, trace: bool) -> Vec<Finding> {
+    let spec = SessionSpec::from_json(sp);
+    let r = run_session(&spec, trace);
+    if trace {
+        for l in &r.transcript {
+            println!("{}", l);
+        }
+    }
+    r.findings
+}
+
+pub fn shrink(sp: &Value, class: &str, key: &str) -> Value {
+    let mut spec = SessionSpec::from_json(sp);
+    let same = |s: &SessionSpec| {
+        let r = run_session(s, false);
+        !r.inconsistent && r.findings.iter().any(|f| f.class == class && f.key == key)
+    };
+    let mut tries = 0;
+    // simpler modes
+    if spec.alloc_mode != alloc::PLAIN {
+        let mut c = spec.clone();
+        c.alloc_mode = alloc::PLAIN;
+        if same(&c) {
+            spec = c;
+        }
+    }
+    if spec.collect_every_step {
+        let mut c = spec.clone();
+        c.collect_every_step = false;
+        if same(&c) {
+            spec = c;
+        }
+    }
+    // drop lines (later lines first), keeping the crash line index consistent
+    let mut changed = true;
+    while changed && tries < 600 {
+        changed = false;
+        let mut i = spec.lines.len();
+        while i > 0 {
+            i -= 1;
+            tries += 1;
+            if matches!(spec.crash, Some((l, _)) if l == i) {
+                continue;
+            }
+            let mut c = spec.clone();
+            c.lines.remove(i);
+            if let Some((l, k)) = c.crash {
+                if l > i {
+                    c.crash = Some((l - 1, k));
+                }
+            }
+            if same(&c) {
+                spec = c;
+                changed = true;
+            }
+        }
+    }
+    // drop statements inside lines (only from lines without failure bookkeeping)
+    for li in 0..spec.lines.len() {
+        let mut si = 0;
+        while si < spec.lines[li].stmts.len() && tries < 1200 {
+            tries += 1;
+            if spec.lines[li].stmts.len() <= 1 || spec.lines[li].effect_equiv.is_some() {
+                break;
+            }
+            let mut c = spec.clone();
+            c.lines[li].stmts.remove(si);
+            if let Fail::Run(idx) = c.lines[li].fail.clone() {
+                if si < idx {
+                    c.lines[li].fail = Fail::Run(idx - 1);
+                } else if si == idx {
+                    si += 1;
+                    continue;
+                }
+            }
+            if same(&c) {
+                spec = c;
+            } else {
+                si += 1;
+            }
+        }
+    }
+    // earliest injection point
+    if let Some((l, k)) = spec.crash {
+        for k2 in 0..k {
+            tries += 1;
+            if tries > 1600 {
+                break;
+            }
+            let mut c = spec.clone();
+            c.crash = Some((l, k2));
+            if same(&c) {
+                spec = c;
+                break;
+            }
+        }
+    }
+    let mut out = spec.to_json();
+    out["expect"] = sp["expect"].clone();
+    out
 }
